@@ -57,7 +57,9 @@ def read : Src → Nat → (Bytes × RErr) × Src
         let (r, inner') := inner.read n
         (r, .l4 buf off fr m inner')
   | .bufio p sz inner, n =>
-      if p.length = 0 then
+      -- bufio.Reader.Read: `if len(p) == 0 { return 0, b.readErr() }` without touching the source
+      if n = 0 then (([], .none), .bufio p sz inner)
+      else if p.length = 0 then
         if n ≥ sz then
           let (r, inner') := inner.read n
           (r, .bufio [] sz inner')
